@@ -862,6 +862,10 @@ func (req *IdpAuthnRequest) MakeAssertionEl() error {
 		return err
 	}
 
+	// sign the assertion itself: a signature left from an earlier call is not
+	// part of it (Element would embed it, and the emitted assertion would no
+	// longer match the digest)
+	req.Assertion.Signature = nil
 	assertionEl := req.Assertion.Element()
 
 	signedAssertionEl, err := signingContext.SignEnveloped(assertionEl)
